@@ -111,6 +111,8 @@ def nrt_part(ctx, c, n, own, other_note):
 
 def rt_part(ctx, c, n):
     cases = [K.gen_prog(ctx.rng, 'rt') for _ in range(n - 2 * (n // 3))]
+    # wake-up latency larger than the yielded deltas, on every RT wake-up loop
+    cases += [K.gen_late_prog(ctx.rng) for _ in range(max(6, n // 6))]
     cases += [K.gen_cross_prog(ctx.rng, k, rt=True) for k in range(n // 3)]
     # routines ON a TempoClock change its tempo while running late, then yield and send with latency
     cases += [K.gen_rt_tempo_prog(ctx.rng) for _ in range(n // 3)]
